@@ -185,6 +185,7 @@ func C16(ctx *core.Ctx) int {
 		atomic.AddInt64(&sharedRuns, int64(n))
 	})
 	// output directories whose names are words the command line knows (format, compile, help ...), in both forms
+	failRuns := c16GeneratorFailures(ctx, bin)
 	wordRuns := c16DirectoryWords(ctx, bin, progs)
 	spellRuns := c16Spellings(ctx, bin, progs)
 	compRuns, straced := c16Compile(ctx, bin, progs)
@@ -205,6 +206,7 @@ func C16(ctx *core.Ctx) int {
 		"shared_output_directory_runs":        sharedRuns,
 		"library_call_sequences":              seqCalls,
 		"directory_named_like_a_command_runs": wordRuns,
+		"generator_failure_runs":              failRuns,
 		"flag_and_path_spelling_runs":         spellRuns,
 		"compile_runs_straced":                straced,
 		"exhaustive":                          true,
@@ -707,4 +709,98 @@ func c16Spellings(ctx *core.Ctx, bin string, progs []*dsl.Program) int64 {
 	})
 	_ = m
 	return runs
+}
+
+// c16GeneratorFailures: when a requested generator reports an error (a program without a root packet for the
+// targets that need one; an output path below a regular file), the command must not claim success: exit status
+// != 0, in both command forms, for every subset of targets that contains a failing one. (Which of the other
+// targets' files are then on disk is not judged.)
+func c16GeneratorFailures(ctx *core.Ctx, bin string) int64 {
+	p := &dsl.Program{Name: "no-root", Packets: []*dsl.Packet{dsl.Pk("Msg", dsl.Sc("u16", "Kind"), dsl.Ds("Text")), dsl.Pk("Other", dsl.Sc("u8", "X"))}}
+	p.Opts = dsl.TargetOpts("gnoroot")
+	text := p.Text()
+	fails := map[string]bool{}
+	for _, l := range api.Langs {
+		m, diags, err := parseText(ctx, text)
+		if err != nil || len(diags) > 0 {
+			return 0 // not accepted at all: C12's subject
+		}
+		if _, err := api.Generate(m, l); err != nil {
+			if _, isPanic := err.(*api.Panic); !isPanic {
+				fails[l] = true
+			}
+		}
+	}
+	var runs int64
+	var masks []int
+	for mask := 1; mask < 64; mask++ {
+		masks = append(masks, mask)
+	}
+	core.Parallel(len(masks)*2, func(k int) {
+		mask, bare := masks[k/2], k%2 == 1
+		var subset []string
+		anyFail := false
+		for i, l := range api.Langs {
+			if mask&(1<<i) != 0 {
+				subset = append(subset, l)
+				anyFail = anyFail || fails[l]
+			}
+		}
+		if !anyFail {
+			return
+		}
+		dir := ctx.TempPath(".gf")
+		os.MkdirAll(dir, 0o755)
+		defer os.RemoveAll(dir)
+		file := filepath.Join(dir, "in.dsl")
+		os.WriteFile(file, []byte(text), 0o644)
+		var args []string
+		if !bare {
+			args = append(args, "compile")
+		}
+		args = append(args, "-f", file)
+		for _, l := range subset {
+			args = append(args, langFlag[l], "out_"+l)
+		}
+		r := runCLI(dir, 120*time.Second, bin, args...)
+		atomic.AddInt64(&runs, 1)
+		if r.crashed {
+			return
+		}
+		if r.exit == 0 {
+			form := "compile"
+			if bare {
+				form = "bare flags"
+			}
+			ctx.Report(form+"|exit status 0 although a requested generator reports an error", fmt.Sprintf("program without a root packet, targets %v (the generators of %v report an error)\n%s", subset, keysOf(fails), core.Trunc(r.stdout, 300)),
+				map[string]any{"name": p.Name, "text": text, "args": args})
+		}
+	})
+	// an output path that cannot be created (below a regular file)
+	{
+		q := dsl.P5()[0]
+		dir := ctx.TempPath(".gf")
+		os.MkdirAll(dir, 0o755)
+		defer os.RemoveAll(dir)
+		file := filepath.Join(dir, "in.dsl")
+		os.WriteFile(file, []byte(q.Text()), 0o644)
+		os.WriteFile(filepath.Join(dir, "blocker"), []byte("a regular file"), 0o644)
+		for _, l := range api.Langs {
+			r := runCLI(dir, 120*time.Second, bin, "compile", "-f", file, langFlag[l], "blocker/out")
+			atomic.AddInt64(&runs, 1)
+			if !r.crashed && r.exit == 0 {
+				ctx.Report("compile|exit status 0 although the output directory cannot be created", fmt.Sprintf("%s below a regular file\n%s", l, core.Trunc(r.stdout, 300)), map[string]any{"name": q.Name, "text": q.Text(), "lang": l})
+			}
+		}
+	}
+	return runs
+}
+
+func keysOf(m map[string]bool) []string {
+	var out []string
+	for k := range m {
+		out = append(out, k)
+	}
+	sort.Strings(out)
+	return out
 }
